@@ -1005,7 +1005,7 @@ func checkStatusIsFailureWhereDataIsExpected(c *Ctx, rule string) {
 				"a STATUS reply with code SSH_FX_OK makes this request return its zero value with a nil error: callers dereference the nil result (Stat().Size(), MkdirAll, WriteTo, Seek(SeekEnd), Walk) and the client panics on 17 bytes from the server")
 		})
 	}
-	c.check(n >= 8, rule, "data requests that can be refused with a STATUS", "?", fmt.Sprintf("%d sites", n), fmt.Sprintf("only %d sites found", n))
+	c.check(n >= 5, rule, "data requests that can be refused with a STATUS", "?", fmt.Sprintf("%d sites", n), fmt.Sprintf("only %d sites found", n))
 	checkStatusCaseNextToDataCase(c, rule)
 }
 
